@@ -16,41 +16,21 @@ Open Scope Z_scope.
 
 Definition dec_codec (v : val) : codec := if as_int v =? 0 then H264 else H265.
 
-Definition cres_code (r : cres) : Z := match r with CK k => k | CPanic => -1 | CFuel => -2 end.
-
 Record ccase := { cc_codec : codec; cc_gop : bool; cc_pkts : list (Z * list Z) }.
 Definition dec_ccase (v : val) : ccase :=
   {| cc_codec := dec_codec (nthv 0 v); cc_gop := as_bool (nthv 1 v);
      cc_pkts := map (fun p => (as_int (nthv 0 p), as_bytes (nthv 1 p))) (as_list (nthv 2 v)) |}.
 
-Definition cc_kinds (c : ccase) : list Z :=
-  map (fun p => cres_code (classify (cc_codec c) (fst p) (snd p))) (cc_pkts c).
+Definition x_C02_classify (v : val) : val :=
+  let c := dec_ccase v in
+  let kinds := cc_kinds (cc_codec c) (cc_pkts c) in
+  VL [ vlist VI kinds; vlist VI (cc_pushed (cc_gop c) kinds) ].
 
-(* packets that made it into CachePack's state change: id = index, kind as classified; a packet
-   whose classification panicked never reaches the cache *)
-Fixpoint number_from (i : Z) (kinds : list Z) : list pkt :=
-  match kinds with
-  | [] => []
-  | k :: ks => (if k <? 0 then [] else [ {| p_id := i; p_kind := k |} ]) ++ number_from (i + 1) ks
-  end.
-
-Definition cc_model (c : ccase) : val :=
-  let kinds := cc_kinds c in
-  let cache := fold_left rc_add (number_from 0 kinds) (rc_empty (cc_gop c)) in
-  VL [ vlist VI kinds; vlist (fun p => VI (p_id p)) (rc_snap cache) ].
-
-Definition x_C02_classify (v : val) : val := cc_model (dec_ccase v).
-
-(* oracle on (case observed): the observed kinds are the classifier's, and what PushTo delivered is
-   the SPECIFICATION [spec_snap] of the observed kind sequence *)
-Definition cc_ok (c : ccase) (obs : val) : bool :=
-  let okinds := map as_int (as_list (nthv 0 obs)) in
-  let opushed := map as_int (as_list (nthv 1 obs)) in
-  list_eqb Z.eqb okinds (cc_kinds c) &&
-  list_eqb Z.eqb opushed (map p_id (spec_snap (cc_gop c) (number_from 0 okinds))).
-
+(* oracle on (case observed) = Model.cc_ok, the function of [classify_model_passes] *)
 Definition x_C02_classify_ok (v : val) : val :=
-  vbool (cc_ok (dec_ccase (nthv 0 v)) (nthv 1 v)).
+  let c := dec_ccase (nthv 0 v) in let obs := nthv 1 v in
+  vbool (cc_ok (cc_codec c) (cc_gop c) (cc_pkts c)
+               (map as_int (as_list (nthv 0 obs))) (map as_int (as_list (nthv 1 obs)))).
 
 (* ---- packetisation cases: the packetiser of the model feeds the real caches ----
    case = (codec form) with form = (0 nal) | (1 x y (nal ...)) | (2 nal (size ...));
@@ -77,20 +57,17 @@ Definition dec_fcase (v : val) : fcase :=
   {| fcs_gop := as_bool (nthv 0 v);
      fcs_tags := map (fun t => (as_int (nthv 0 t), as_int (nthv 1 t), as_bytes (nthv 2 t))) (as_list (nthv 1 v)) |}.
 
-Fixpoint ftags_from (i : Z) (l : list (Z * Z * list Z)) : list ftag :=
-  match l with
-  | [] => []
-  | (ty, ts, d) :: l' => {| t_id := i; t_kind := flv_classify ty d; t_ts := ts |} :: ftags_from (i + 1) l'
-  end.
+Definition x_C02_classify_flv (v : val) : val :=
+  let c := dec_fcase v in
+  let kinds := flv_kinds (fcs_tags c) in let tss := flv_tss (fcs_tags c) in
+  VL [ vlist VI kinds;
+       vlist (fun t => VL [VI (t_id t); VI (t_ts t)]) (flv_pushed (fcs_gop c) kinds tss);
+       vlist VI tss ].
 
-Definition fcs_model (c : fcase) : val :=
-  let tags := ftags_from 0 (fcs_tags c) in
-  let '(cache', q) := fc_push (fold_left fc_add tags (fc_empty (fcs_gop c))) in
-  VL [ vlist (fun t => VI (t_kind t)) tags;
-       vlist (fun t => VL [VI (t_id t); VI (t_ts t)]) q;
-       vlist (fun t => VI (t_ts t)) tags ].
-
-Definition x_C02_classify_flv (v : val) : val := fcs_model (dec_fcase v).
-
+(* oracle on (case observed) = Model.flv_ok, the function of [flv_model_passes] *)
 Definition x_C02_classify_flv_ok (v : val) : val :=
-  vbool (val_eqb (nthv 1 v) (fcs_model (dec_fcase (nthv 0 v)))).
+  let c := dec_fcase (nthv 0 v) in let obs := nthv 1 v in
+  vbool (flv_ok (fcs_gop c) (fcs_tags c)
+                (map as_int (as_list (nthv 0 obs)))
+                (map (fun p => (as_int (nthv 0 p), as_int (nthv 1 p))) (as_list (nthv 1 obs)))
+                (map as_int (as_list (nthv 2 obs)))).
